@@ -35,6 +35,10 @@ func (c *ctx) pick(q, th int) int {
 var props = map[string]func(*ctx){}
 
 func main() {
+	if len(os.Args) >= 4 && os.Args[1] == "agentd" {
+		agentd(os.Args[2:])
+		return
+	}
 	if len(os.Args) < 5 {
 		fmt.Fprintln(os.Stderr, "usage: vh <property> <quick|thorough> <seed> <trace>")
 		os.Exit(2)
